@@ -202,7 +202,10 @@ pub fn edit_atoms(atoms: &mut Vec<Atom>, edits: &[(u8, u16, u16)], ch: &mut Choo
     }
 }
 
-pub const SOUP_CHARS: [&str; 66] = [
+pub const SOUP_CHARS: [&str; 77] = [
+    // more classes a Unicode predicate could let through next to an identifier: other numeric categories (No, Nl),
+    // connector punctuation and other XID_Continue characters, format characters, an emoji
+    "²", "Ⅷ", "·", "‿", "＿", "℘", "\u{00AD}", "\u{2060}", "🙂", "\u{200D}", "１",
     // look-alikes that are NOT whitespace for char::is_whitespace: must be rejected
     "\u{200B}", "\u{FEFF}", "\u{001C}", "\u{180E}",
     // rare classes: the remaining information separators, the largest code points, the replacement character, a
